@@ -97,7 +97,7 @@ impl Case {
         } else if self.kind.is_session() {
             s.push_str(&format!("    .window(session: {}ms)\n", self.size));
         } else {
-            s.push_str(&format!("    .window({}ms)\n", self.size));
+            s.push_str(&format!("    .window({}ms)\n", self.size + 1));
         }
         s.push_str(FP_TAIL);
         s
@@ -425,7 +425,7 @@ fn check_case(c: &Case, rt: &tokio::runtime::Runtime, out: &mut Partial) {
                     }
                 }
                 if c.kind.is_session() {
-                    if let Some(w) = g.windows(2).find(|w| arrival[&w[1]].1 - arrival[&w[0]].1 > c.size - 1) {
+                    if let Some(w) = g.windows(2).find(|w| arrival[&w[1]].1 - arrival[&w[0]].1 > c.size) {
                         report(out, format!("shape/gap/{}", on), "a session window (in-order timestamps, consistent watermarks) holds consecutive events further apart than the gap", Some(em), json!({"window_of_one_partition": g, "gap_ms": c.size, "pair": w, "distance_ms": arrival[&w[1]].1 - arrival[&w[0]].1}));
                     }
                 }
